@@ -45,7 +45,7 @@ let run_prog line =
   let toks = List.filter (fun s -> s <> "") (split_on ' ' line) in
   let fin b = if b then "1" else "0" in
   List.iter (fun tok ->
-    if starts tok "src=" then src := unhex (after tok 4)
+    if starts tok "src=" then begin src := unhex (after tok 4); emit "|" end
     else if starts tok "dict=" then begin
       match M.decode_dict (unhex (after tok 5)) with
       | M.ROk d -> dec := M.fdec_add_dict !dec d; emit ("dict:ok:" ^ z_to_string d.M.d_id)
